@@ -1,10 +1,12 @@
 use super::runner::{Codec, Property};
 
+pub mod c03;
 pub mod c04;
+pub mod gen_out;
 pub mod c06;
 pub mod c07;
 pub mod c08;
 
 pub fn all<C: Codec>() -> Vec<Property> {
-    vec![c04::property::<C>(), c06::property::<C>(), c07::property::<C>(), c08::property::<C>()]
+    vec![c03::property::<C>(), c04::property::<C>(), c06::property::<C>(), c07::property::<C>(), c08::property::<C>()]
 }
